@@ -1051,7 +1051,17 @@ pub fn aig_doc_strategy(lit: u8, binary: bool) -> impl Strategy<Value = AigDoc> 
             let outputs = lits(no, &mut pick);
             let bad = lits(nb, &mut pick);
             let constraints = lits(nc, &mut pick);
-            let justice: Vec<Vec<u64>> = (0..nj).map(|_| { let n = pick(3) as usize; lits(n, &mut pick) }).collect();
+            let justice: Vec<Vec<u64>> = (0..nj)
+                .map(|_| {
+                    // mostly 0..=2 conditions; sometimes more than a u8 / (rarely) a u16 can count
+                    let n = match pick(2000) {
+                        0 => 65536 + pick(3),
+                        1..=60 => 250 + pick(20),
+                        _ => pick(3),
+                    } as usize;
+                    lits(n, &mut pick)
+                })
+                .collect();
             let fairness = lits(nf, &mut pick);
             let counts: [(char, u64); 7] = [
                 ('i', i),
